@@ -41,6 +41,12 @@ func TestVerifReplay(t *testing.T) {
 			}()
 			var res string
 			vTierVal = it.Tier
+			if strings.HasSuffix(it.Harness, "_RT") {
+				// real-time harness (goroutines parked on mutexes cannot be replayed under synctest)
+				vRealTime = true
+				defer func() { vRealTime = false }()
+				return vRunReplay(it.Harness, it.Vec, it.Kinds)
+			}
 			synctest.Test(t, func(t *testing.T) {
 				res = vRunReplay(it.Harness, it.Vec, it.Kinds)
 			})
